@@ -183,6 +183,41 @@ fn cbor_bytes_head(r: &mut Rng, len: usize, minimal: bool) -> Vec<u8> {
 pub fn generate(g: &mut Gen) {
     let max_total = if g.thorough() { 16384 } else { 4096 };
     g.case(vec!["selftest".to_string()]);
+    // EXHAUSTIVE small domains, every run ------------------------------------------------------------
+    // every tag byte (one short message, 256-bit digest)
+    { let m = g.rng.bytes(40); g.case((0..256).map(|t| format!("tagged 256 {} {}", t, hex(&m))).collect::<Vec<_>>()); }
+    for n in [28usize, 32] {
+        // every byte-string length 0..=66 through CBOR decode (minimal and 1-byte-length heads), From<&[u8]>, and
+        // every hex-string length 0..=2n+3 through FromStr
+        let mut ops = vec![];
+        for len in 0..=66usize {
+            let body = g.rng.bytes(len);
+            let mut e = if len < 24 { vec![0x40 + len as u8] } else { vec![0x58, len as u8] };
+            e.extend(&body);
+            ops.push(format!("dec {} {}", n, hex(&e)));
+            if len < 24 { let mut e2 = vec![0x58, len as u8]; e2.extend(&body); ops.push(format!("dec {} {}", n, hex(&e2))); }
+            ops.push(format!("fromslice {} {}", n, hex(&body)));
+        }
+        for chars in 0..=(2 * n + 3) {
+            let s: String = (0..chars).map(|_| *g.rng.pick(&['0', '9', 'a', 'f', 'A', 'F', '5', 'c'])).collect();
+            ops.push(format!("fromstr {} {}", n, hex(s.as_bytes())));
+        }
+        g.case(ops);
+    }
+    // every possible first byte of the CBOR input, with no / short / ample following bytes
+    { let tail = g.rng.bytes(40);
+      let mut ops = vec![];
+      for b in 0..=255u8 {
+          ops.push(format!("dec 32 {:02x}", b));
+          ops.push(format!("dec 32 {:02x}{}", b, hex(&tail[..2])));
+          ops.push(format!("dec 32 {:02x}{}", b, hex(&tail)));
+      }
+      g.case(ops); }
+    // every VRF-output length 0..=70 and 128 for the rolling nonce
+    { let prev = g.rng.bytes(32);
+      let mut ops: Vec<String> = (0..=70usize).chain(std::iter::once(128)).map(|l| { let v = g.rng.bytes(l); format!("rolling {} {}", hex(&prev), hex(&v)) }).collect();
+      ops.push(format!("epoch {} {} -", hex(&prev), hex(&prev)));
+      g.case(ops); }
     for i in 0..g.cases {
         let mut ops = vec![];
         let r = &mut g.rng;
